@@ -36,6 +36,10 @@ FN = {"init": "splinetable_init", "free": "splinetable_free", "read": "readsplin
       "grideval": "splinetable_grideval", "nddestroy": "ndsparse_destroy", "perm": "splinetable_permute", "nullarg": "nullarg", "notable": "notable"}
 SHAPES = list(c20.SHAPES) + [("s8", [(1, 4)] * 8, [("KEY1", "7")])]
 KEYS = dict(c20.KEYS); KEYS.update({"NEWK": 21, "NEWD": 22, "KE~": 23, "ABSENT": 24})
+# keys at write_key's length limits (aux.h: at most 66 characters, value at most 67 - keylen characters for a key of more than eight):
+# the wrapper must accept and refuse exactly what splinetable<>::write_key does
+LIMIT_KEYS = ["L" * 64 + "X", "L" * 65 + "X", "L" * 66 + "X", "NINECHARS", "L" * 58 + "X"]
+KEYS.update({k: 25 + i for i, k in enumerate(LIMIT_KEYS)})
 PH = {"none": "PNone", "hdu": "PHdu", "dim": "PDim", "order": "POrder", "imgsize": "PImgSize", "coeff": "PCoeff", "extents": "PExtents"}
 
 def cl(xs): return "[" + "; ".join(str(x) for x in xs) + "]"
@@ -214,7 +218,10 @@ def gen_sequence(rng, env, maxlen=30, probe_null=True):
             add("readkey", "op readkey %d %s %s" % (h, t, key), [call(h, "(AReadKey %d %s)" % (KEYS[key], "true" if ok else "false"))])
         elif c < 13:
             t = rng.choice("id"); key = rng.choice(["NEWK", "NEWD", "KE~", "KEY1"]); val = str(rng.rint(1, 99)) if t == "i" else "%d.5" % rng.rint(0, 9)
-            inv = "~" in key
+            if rng.chance(0.3):
+                key = rng.choice(LIMIT_KEYS)
+                val = rng.choice([str(rng.rint(0, 9)), str(rng.rint(10, 99)), str(rng.rint(100000000, 999999999))]) if (t == "i" or rng.chance(0.5)) else "%d.5" % rng.rint(0, 9)
+            inv = "~" in key or len(key) > 66 or (len(key) > 8 and len(val) > 67 - len(key))
             add("writekey", "op writekey %d %s %s %s" % (h, t, key, val),
                 [call(h, "(AWriteKey %s {| akey := %d; aklen := %d; avlen := %d |})" % ("true" if inv else "false", KEYS[key], len(key) + 1, len(val) + 1))])
             if not inv: st["keys"][key] = val
